@@ -6,7 +6,9 @@ import (
 	"flag"
 	"fmt"
 	"os"
+	"runtime"
 	"runtime/pprof"
+	"time"
 )
 
 func usage() {
@@ -102,10 +104,15 @@ func coreReplay(args []string) {
 	sc := bufio.NewScanner(in)
 	sc.Buffer(make([]byte, 1<<20), 1<<26)
 	nb, ns := 0, 0
+	procBase := runtime.NumGoroutine()
 	for sc.Scan() {
 		var beh []Action
 		if err := json.Unmarshal(sc.Bytes(), &beh); err != nil {
 			must(fmt.Errorf("behaviour %d: %v", nb, err))
+		}
+		// (the goroutines of the previous behaviour's last step and teardown have ended before the baseline is taken)
+		for i := 0; i < 20000 && runtime.NumGoroutine() > procBase; i++ {
+			time.Sleep(50 * time.Microsecond)
 		}
 		s := NewSystem(topo)
 		for _, a := range beh {
@@ -114,11 +121,51 @@ func coreReplay(args []string) {
 			}
 		}
 		must(enc.Encode(map[string]any{"a": map[string]string{"a": "reset"}}))
+		var prev *AbsState
+		s.baseG++ // every step runs in a goroutine of its own (watchdog)
 		for _, a := range beh {
-			must(enc.Encode(s.step(a)))
+			// a step that never returns (a deadlock in the stack) must not hang the check: it is reported as such and the
+			// process ends (nothing after it in this process can be trusted)
+			done := make(chan TraceLine, 1)
+			go func() { done <- s.step(a) }()
+			select {
+			case line := <-done:
+				must(enc.Encode(line))
+				prev = line.St
+			case <-time.After(30 * time.Second):
+				line := TraceLine{A: a, Ret: "panic", Pan: "hang: the step did not return within 30 s (a call of the stack blocks forever)",
+					Out: map[string][]AbsDg{}, Req: map[string][]AbsDg{}, Cbf: []CbFire{}, Ev: []AbsEvent{}, St: prev}
+				for _, pn := range topo.Peers {
+					line.Out[pn], line.Req[pn] = []AbsDg{}, []AbsDg{}
+				}
+				if line.St == nil {
+					line.St = NewSystem(topo).project()
+				}
+				must(enc.Encode(line))
+				w.Flush()
+				fmt.Printf("{\"behaviours\": %d, \"steps\": %d, \"hung\": true}\n", nb+1, ns+1)
+				os.Exit(0)
+			}
 			ns++
 		}
-		s.Close()
+		// the teardown as well
+		closed := make(chan struct{})
+		go func() { s.Close(); close(closed) }()
+		select {
+		case <-closed:
+		case <-time.After(30 * time.Second):
+			if prev != nil {
+				line := TraceLine{A: Action{"a": "disconnect", "p": topo.Peers[0]}, Ret: "panic", Pan: "hang: the teardown did not return within 30 s",
+					Out: map[string][]AbsDg{}, Req: map[string][]AbsDg{}, Cbf: []CbFire{}, Ev: []AbsEvent{}, St: prev}
+				for _, pn := range topo.Peers {
+					line.Out[pn], line.Req[pn] = []AbsDg{}, []AbsDg{}
+				}
+				must(enc.Encode(line))
+			}
+			w.Flush()
+			fmt.Printf("{\"behaviours\": %d, \"steps\": %d, \"hung\": true}\n", nb+1, ns)
+			os.Exit(0)
+		}
 		nb++
 	}
 	must(sc.Err())
